@@ -306,4 +306,117 @@ theorem cex_id_collision : ∃ (sc : Sched) (i : Tid),
   ⟨[(0, .regAlloc 0 5), (1, .regAlloc 0 5), (0, .regStore 0 7), (1, .regStore 0 9), (0, .regGet 0)],
     0, by decide⟩
 
+/-! ## History independence on one thread
+
+A well-nested block of context-variable operations (`token = V.set(x); try: … finally:
+V.reset(token)`) leaves the context variables and the token stack as it found them, for every
+configuration, whatever plain steps (parser, registry, reads) happen inside. -/
+
+theorem run_append (c : Cfg) (a b : Sched) : ∀ (s : State),
+    run c s (a ++ b) = ((run c (run c s a).1 b).1, (run c s a).2 ++ (run c (run c s a).1 b).2) := by
+  induction a with
+  | nil => intro s; rfl
+  | cons e rest ih =>
+    obtain ⟨t, op⟩ := e
+    intro s
+    rw [List.cons_append, run_cons, ih, run_cons]
+    rfl
+
+theorem solo_cons (t : Tid) (op : Op) (ops : List Op) : solo t (op :: ops) = (t, op) :: solo t ops :=
+  rfl
+
+theorem solo_append (t : Tid) (a b : List Op) : solo t (a ++ b) = solo t a ++ solo t b :=
+  List.map_append
+
+/-- plain steps do not touch the context variables or the tokens -/
+theorem plain_step (c : Cfg) (s : State) (t : Tid) (op : Op) (hp : op.isPlain = true) :
+    (step c s t op).1.cell = s.cell ∧ (step c s t op).1.toks = s.toks := by
+  cases op <;> try cases hp
+  all_goals simp only [step]
+  all_goals (repeat' split)
+  all_goals first | exact ⟨rfl, rfl⟩ | exact ⟨trivial, trivial⟩
+
+/-- `reset v` in a state that has the cells and tokens `set v x` left gives back the cells and
+    tokens from before the `set` -/
+theorem reset_after_set (c : Cfg) (t : Tid) (v : CVar) (x : Nat) (s s2 : State)
+    (hc : s2.cell = (step c s t (.ctxSet v x)).1.cell)
+    (ht : s2.toks = (step c s t (.ctxSet v x)).1.toks) :
+    (step c s2 t (.ctxReset v)).1.cell = s.cell ∧ (step c s2 t (.ctxReset v)).1.toks = s.toks := by
+  simp only [step] at hc ht
+  have h1 : s2.toks t = (v, s.cell v (slot (c.cvarLocal v) t)) :: s.toks t := by
+    rw [ht]; simp [upd_apply]
+  simp only [step, h1, if_true, hc, ht]
+  constructor
+  · funext w sl
+    simp only [upd_apply]
+    by_cases hw : w = v
+    · subst hw; by_cases hs : sl = slot (c.cvarLocal w) t <;> simp [hs, upd_apply]
+    · simp [hw]
+  · funext j
+    simp only [upd_apply]
+    by_cases hj : j = t <;> simp [hj]
+
+/-- A balanced block restores every context variable cell and the thread's token stack. -/
+theorem balanced_restores (c : Cfg) (t : Tid) (ops : List Op) (hb : Balanced ops) (s : State) :
+    (run c s (solo t ops)).1.cell = s.cell ∧ (run c s (solo t ops)).1.toks = s.toks := by
+  induction hb generalizing s with
+  | nil => exact ⟨rfl, rfl⟩
+  | plain hp _ ih =>
+    rw [solo_cons, run_cons]
+    obtain ⟨h1, h2⟩ := plain_step c s t _ hp
+    obtain ⟨h3, h4⟩ := ih (step c s t _).1
+    exact ⟨h3.trans h1, h4.trans h2⟩
+  | @block v x inner rest _ _ ihi ihr =>
+    rw [solo_cons, run_cons, solo_append, run_append, solo_cons, run_cons]
+    obtain ⟨h1, h2⟩ := ihi (step c s t (.ctxSet v x)).1
+    obtain ⟨h3, h4⟩ := reset_after_set c t v x s _ h1 h2
+    obtain ⟨h5, h6⟩ := ihr (step c (run c (step c s t (.ctxSet v x)).1 (solo t inner)).1 t (.ctxReset v)).1
+    exact ⟨h5.trans h3, h6.trans h4⟩
+
+theorem run_length (c : Cfg) (sc : Sched) : ∀ (s : State), (run c s sc).2.length = sc.length := by
+  induction sc with
+  | nil => intro s; rfl
+  | cons e rest ih => obtain ⟨t, op⟩ := e; intro s; rw [run_cons]; simp [ih]
+
+theorem reset_after_set_obs (c : Cfg) (t : Tid) (v : CVar) (x : Nat) (s s2 : State)
+    (ht : s2.toks = (step c s t (.ctxSet v x)).1.toks) :
+    (step c s2 t (.ctxReset v)).2 = .unit := by
+  simp only [step] at ht
+  have h1 : s2.toks t = (v, s.cell v (slot (c.cvarLocal v) t)) :: s.toks t := by
+    rw [ht]; simp [upd_apply]
+  simp only [step, h1, if_true]
+
+/-- … and no reset inside a balanced block fails: paired with the operations, every observation of
+    a `ctxReset` is `.unit` (never `.err`). -/
+theorem balanced_no_ctx_err (c : Cfg) (t : Tid) (ops : List Op) (hb : Balanced ops) (s : State) :
+    ∀ p ∈ ops.zip (run c s (solo t ops)).2, (∃ v, p.1 = .ctxReset v) → p.2.2 = .unit := by
+  induction hb generalizing s with
+  | nil => intro p hp; cases hp
+  | @plain op rest hpl _ ih =>
+    intro p hp ⟨v, hv⟩
+    rw [solo_cons, run_cons, List.zip_cons_cons, List.mem_cons] at hp
+    rcases hp with rfl | hp
+    · simp only at hv; subst hv; cases hpl
+    · exact ih _ p hp ⟨v, hv⟩
+  | @block v x inner rest hbi _ ihi ihr =>
+    intro p hp hv
+    have hlen : inner.length = (run c (step c s t (.ctxSet v x)).1 (solo t inner)).2.length := by
+      rw [run_length]; simp [solo]
+    rw [solo_cons, run_cons, solo_append, run_append, solo_cons, run_cons, List.zip_cons_cons,
+      List.zip_append hlen, List.zip_cons_cons, List.mem_cons, List.mem_append, List.mem_cons] at hp
+    rcases hp with rfl | hp | rfl | hp
+    · obtain ⟨_, hv⟩ := hv; cases hv
+    · exact ihi _ p hp hv
+    · exact reset_after_set_obs c t v x s _ (balanced_restores c t inner hbi _).2
+    · exact ihr _ p hp hv
+
+/-- the nesting of `parse_file` (path block around parser steps and a bytes block) is balanced -/
+example : Balanced [.ctxSet .path 1, .getParser, .parseBegin 7, .parseEnd, .ctxSet .bytes 2,
+    .ctxGet .bytes, .ctxReset .bytes, .ctxReset .path] :=
+  .block (inner := [.getParser, .parseBegin 7, .parseEnd, .ctxSet .bytes 2, .ctxGet .bytes,
+      .ctxReset .bytes]) (rest := [])
+    (.plain rfl (.plain rfl (.plain rfl
+      (.block (inner := [.ctxGet .bytes]) (rest := []) (.plain rfl .nil) .nil))))
+    .nil
+
 end Nima.Sched
